@@ -50,6 +50,7 @@ typedef struct {
   int res_b, res_c;         /* ldres*: var indices of b and c operands (-1 none) */
   int res_lin;
   int read, wrote_mem;
+  int use_lsize, use_mult;  /* first use of a constant/parameter: lane size and prefix multiplier */
 } PVar;
 
 typedef struct {
@@ -69,6 +70,7 @@ typedef struct {
   int count[VK_NKINDS];
   int has_float, has_acc, has_x, has_inplace, has_special_load, has_64;
   int max_live_temps;
+  int const_two_lanes;      /* a constant/parameter is used with two lane sizes of equal total size */
   int acc_nonarray;         /* an accumulating opcode reads something that is not a source array */
   int ldres_shared;         /* an array is read by ldres* and by another access */
 } ProgSpec;
